@@ -4,6 +4,7 @@ import Model.C14.Descriptor
 import Model.C14.Scan
 import Model.C14.Multipath
 import Model.C14.Derive
+import Model.C14.Normalize
 import Model.C14.Musig
 import Model.C14.Wallet
 import Model.C14.CoreImport
@@ -124,6 +125,13 @@ def scriptsOut (net : String) (l : List Bytes) : String :=
     match Address.address hash256 s net with
     | .ok a => if a.isEmpty then "-" else cpsOut (a.map Char.ofNat)
     | .error _ => "!")
+
+/-- the keys `_normalized_key` re-roots (`Btc.Desc.Key.rerooted` of Proofs/C14/Normalize.lean, restated here because
+    the driver cannot import the proofs) -/
+def rerootedKey (k : Desc.Key) : Bool :=
+  match k.atom with
+  | .pub _ _ => false
+  | .xkey _ => k.wildcard != some true && (Desc.rerootAt k.path).isSome
 
 def keyType? : String → Option Desc.KeyScriptType
   | "p2pkh" => some .p2pkh | "p2wpkh-p2sh" => some .p2wpkhP2sh | "p2wpkh" => some .p2wpkh | "p2tr" => some .p2tr
@@ -274,6 +282,20 @@ def handle : List String → String
       | .ok d =>
         (match Desc.atIndex d i with
          | some d' => s!"ok {cpsOut (Desc.strD d')} {if d.isRanged then 1 else 0}"
+         | none => "err value")
+      | .error .value => "err value"
+      | .error .unsupported => "unsupported"
+    | _, _, _ => "bad-op"
+  | ["desc.norm", tbl, prv, txt, net] =>
+    -- `str(normalized(parse(text, net), prv_keys))`, whether a key of it is re-rooted, and `normalized` of the answer
+    match table? tbl, prv? prv, cps? txt with
+    | some tb, some pk, some t =>
+      match Desc.parse tb.oracle t with
+      | .ok d =>
+        (match Desc.normalized env pk d with
+         | some d' =>
+           let again := match Desc.normalized env [] d' with | some d'' => decide (d'' = d') | none => false
+           s!"ok {cpsOut (Desc.strD d')} {if d.keys.any rerootedKey then 1 else 0} {if again then 1 else 0}"
          | none => "err value")
       | .error .value => "err value"
       | .error .unsupported => "unsupported"
